@@ -111,6 +111,12 @@ pub fn opt_transform(parent_node: &Node, tag_name: &str) -> Result<Option<Transf
     }
 }
 
+/// Checks if a character is allowed in XML 1.0 documents (see production "Char" of the XML specification).
+/// All other characters cannot be stored at all, not even as character references.
+pub fn is_xml_char(c: char) -> bool {
+    matches!(c, '\u{9}' | '\u{A}' | '\u{D}' | '\u{20}'..='\u{D7FF}' | '\u{E000}'..='\u{FFFD}' | '\u{10000}'..='\u{10FFFF}')
+}
+
 pub fn gen_string<T: Display>(tag_name: &str, value: &T) -> String {
     // The end marker of a CDATA section must not appear inside of it, split the section there.
     // A literal carriage return is turned into a line feed by every XML parser,
